@@ -258,6 +258,9 @@ def driver_cases(draw, tier):
     nv = draw(st.integers(5, 6))
     cfg = sim.base_cfg([nr, nq, nz, nv], draw(st.sampled_from([0.0, 0.8])), draw(st.sampled_from([2.0, 239.8081535])),
                        eps=1e-2, m=draw(st.integers(1, 2)), n=draw(st.integers(-1, 1)), dt=draw(st.sampled_from([1, 2])))
+    ph = draw(sim.phys())
+    if ph:
+        cfg["phys"] = ph
     sizes = [2, 3, 4, 6] if tier == "quick" else [2, 3, 4, 5, 6, 8]
     Ps = draw(st.lists(st.sampled_from(sizes), min_size=1, max_size=2 if tier == "quick" else 4, unique=True))
     return {"cfg": cfg, "steps": draw(st.integers(1, 2)), "saveStep": draw(st.sampled_from([5, 2, 3])), "Ps": Ps,
